@@ -137,7 +137,11 @@ FWordAgrees(f) == LET p == FSplit(f) IN Len(p.pre) = f.w0 /\ Len(p.pre) + Len(p.
 FWrap(f) == IF f.smart THEN SmartQuote(FSplit(f)) ELSE FSplit(f)
 FWrapped(f, x) == FWrap(f).pre \o x \o FWrap(f).trail
 FTexts(f) == [i \in DOMAIN f.cands |-> f.cands[i].t]
-FIsEnglish(f, i) == f.english /\ ~f.bs /\ i = Len(f.cands) /\ f.cands[i].t = f.keys /\ f.keys # f.comp
+\* the raw key text offered last.  Once a backspace was used the statement no longer says WHICH raw text it is (the key
+\* buffer and the composition are popped independently); what it still says is that every BENGALI candidate is justified -
+\* so after a correction a last candidate made of ASCII characters only is taken for the raw key text.
+FIsEnglish(f, i) == /\ f.english /\ i = Len(f.cands)
+                    /\ IF f.bs THEN i > 1 /\ f.cands[i].ascii ELSE f.cands[i].t = f.keys /\ f.keys # f.comp
 FEmojiTexts(f) == {FWrapped(f, f.names[i]) : i \in DOMAIN f.names} \cup (IF f.emoticon # <<>> THEN {f.emoticon} ELSE {})
 
 \* the first candidate is the composed text itself, with smart-quote curling applied
